@@ -22,11 +22,11 @@ type c04Case struct {
 }
 
 type c04Info struct {
-	pages        int
-	emptyPage    bool
-	tieBoundary  bool
-	deleted      bool
-	resultLen    int
+	pages       int
+	emptyPage   bool
+	tieBoundary bool
+	deleted     bool
+	resultLen   int
 }
 
 func canonList(items []model.Item) []string {
